@@ -29,7 +29,8 @@ META = dict(
               "connection and 1 on the second, each step solver-chosen from {channel message A, channel message B, "
               "garbage frame, unknown JSON, normal close, abrupt drop, server reconnect request (bitstamp), "
               "listenKeyExpired (binance), subscription error reply, 300 ms delay, register a new channel while "
-              "connected}; failing listen-key creation on the first attempt (choice); horizon 6 virtual s, keep-alive "
+              "connected}; failing listen-key creation on the first attempt (choice), failing first keep-alive request "
+              "(choice); horizon 9 virtual s (binance) / 6 s, keep-alive "
               "period 2 s, back-off 1 s",
         thorough="3 steps on the first connection, 2 on the second"),
     stubs=["aiohttp session -> fake with ws_connect()/post(); fake socket implements __aiter__/send_str/close/closed",
@@ -171,15 +172,20 @@ class MiniDispatcher:
             delay = (when - self.now()).total_seconds()
             if delay > 0:
                 await asyncio.sleep(delay)
-            await job()
+            try:
+                await job()
+            except Exception:           # the real dispatcher logs a failing job and carries on
+                pass
         self.tasks.append(asyncio.ensure_future(runner()))
 
 
 class FakeSpotAccountCli:
-    def __init__(self, log, fail_first):
+    def __init__(self, log, fail_first, fail_first_keep_alive=False):
         self.k = 0
         self.log = log
         self.fail_first = fail_first
+        self.fail_first_keep_alive = fail_first_keep_alive
+        self.nka = 0
 
     async def create_listen_key(self):
         await asyncio.sleep(0.03)           # a REST round trip: other things happen meanwhile
@@ -190,6 +196,9 @@ class FakeSpotAccountCli:
 
     async def keep_alive_listen_key(self, key):
         self.log.append(("api", "keepalive", key, asyncio.get_event_loop().time()))
+        self.nka += 1
+        if self.fail_first_keep_alive and self.nka == 1:
+            raise aiohttp.ClientError("keep-alive request failed")      # (a 5xx / timeout: the next one is still due)
         return {}
 
 
@@ -199,9 +208,10 @@ def scenario(ctx, client="binance", steps1=2, steps2=1):
     picks = [[kinds[ctx.choice("c%d_step%d" % (c, i), len(kinds))] for i in range(n)]
              for c, n in ((0, steps1), (1, steps2))]
     fail_first_key = ctx.flag("listen_key_creation_fails_first") if client == "binance" else False
+    fail_first_ka = ctx.flag("first_keep_alive_request_fails") if client == "binance" else False
     log = []
     out = {}
-    HORIZON = 6.0
+    HORIZON = 9.0 if client == "binance" else 6.0
 
     async def body(loop):
         clock = types.SimpleNamespace(time=loop.time)
@@ -254,7 +264,7 @@ def scenario(ctx, client="binance", steps1=2, steps2=1):
         d = MiniDispatcher(loop)
         srcs = {}
         if client == "binance":
-            api = types.SimpleNamespace(spot_account=FakeSpotAccountCli(log, fail_first_key))
+            api = types.SimpleNamespace(spot_account=FakeSpotAccountCli(log, fail_first_key, fail_first_ka))
             cli = bn_ws.WebSocketClient(d, api, session=sess, config_overrides={
                 "api": {"websockets": {"base_url": "ws://x/", "spot": {"user_data_stream": {"heartbeat": 2}}}}})
             chA = bn_ws.PublicChannel("btcusdt@trade")
